@@ -1,7 +1,7 @@
 """vx.decide -- property -> units/functions -> obligations -> exit code, VIOLATION / KNOWN-FINDING lines, evidence."""
 import os, re, sys, json, time, hashlib, subprocess, importlib.util
 from concurrent.futures import ThreadPoolExecutor
-from . import core, lower as L, native
+from . import core, lower as L, native, fidelity
 
 VERIF = core.VERIF
 
@@ -118,6 +118,13 @@ def check(prop, tier, seed):
         static = []
         for sf in spec.get('static', []):
             static += sf(src)
+        fid = []
+        for u in units:
+            if u.name in fidelity.DRIVERS:
+                ok, out = fidelity.run(u.name, 100000 if tier == 'thorough' else 2000, seed, src)
+                fid.append(dict(unit=u.name, agree=ok, summary=out.strip().split('\n')[-1][:200]))
+                if ok is not True:
+                    undecided.append('EXTRACTION-UNSOUND or fidelity guard not runnable for unit %s: %s' % (u.name, out.strip()[-300:]))
     except L.ExtractionBreak as e:
         print('UNDECIDED property=%s extraction break: %s' % (prop, e))
         write_evidence(prop, tier, seed, t0, [], {}, [], [], ['extraction break: %s' % e], spec)
@@ -184,6 +191,7 @@ def check(prop, tier, seed):
     for u in undecided:
         print('UNDECIDED property=%s %s' % (prop, u[:600]))
 
+    extra = dict(extra or {}, fidelity_guard=fid)
     write_evidence(prop, tier, seed, t0, all_obl, jobs, units, known_lines, undecided, spec, violations=violations, extra=extra)
     if violations:
         return 1
